@@ -11,7 +11,7 @@ import traceback
 from harness import build, maptrace, taxo
 from harness.traces import validate
 
-SCHEMES = ['structural', 'reversed', 'shared']
+SCHEMES = ['structural', 'reversed', 'shared', 'slashed']
 
 CLAUSES = {
     101: ('C01', 'chunk after the run finished'),
@@ -150,7 +150,7 @@ def _one(args):
         return {'scn': scn, 'scheme': scheme, 'harness_error': traceback.format_exc()}
 
 
-def campaign(ctx, scns, name, votes=True, name_tables=False, keep=False, jobs=12, schemes=None):
+def campaign(ctx, scns, name, votes=True, name_tables=False, keep=False, jobs=12, schemes=None, focus=None):
     """returns list of result dicts each with 'verdict' (TLC) and 'clauses' = list of
     (clause, property, text, detail)."""
     from harness.tlc import MachineryError
@@ -177,6 +177,25 @@ def campaign(ctx, scns, name, votes=True, name_tables=False, keep=False, jobs=12
             prop, text = CLAUSES.get(code, ('C03', '?'))
             cl.append((code, prop, text, {'detail': msg}))
         r['clauses'] = cl
+    if focus is not None:
+        # a trace that stopped at a clause of ANOTHER property may hide a clause of the property in focus
+        # further down: validate it again without the vote / draw clauses (C02) and keep what belongs to `focus`
+        again = [r for r in results if not r['verdict']['accepted'] and r['clauses']
+                 and r['clauses'][0][1] != focus and r['clauses'][0][0] in (201, 202, 203, 204, 205, 210, 211, 212, 213)]
+        if again:
+            import copy
+            t2 = []
+            for r in again:
+                t = copy.deepcopy(r['trace'])
+                t['run']['votes'] = False
+                t['run']['draws'] = False
+                t2.append(t)
+            for r, v in zip(again, validate(ctx, 'MapRun_Trace', t2, name + '_focus', counts_as_impl=False)):
+                if not v['accepted']:
+                    prop, text = CLAUSES.get(v['inv'], ('C01', f'unknown clause {v["inv"]}'))
+                    if prop == focus:
+                        ev = r['trace']['events'][v['reached'] - 1] if v['reached'] - 1 < len(r['trace']['events']) else None
+                        r['clauses'].append((v['inv'], prop, text, {'event_index': v['reached'], 'event': ev}))
     return results
 
 
